@@ -344,6 +344,18 @@ def main(tier_: str) -> int:
                                     sessions.append(s3)
                             continue
                     sessions.append(s)
+        # refresh-edge sessions (both tiers): the corruption sits in the first / second segment that is new after a refresh,
+        # where only the history of the session tells the validator what to expect
+        for tmpl, q, fault_nm in (('hand_made.mpd', 'depth=30', 'tfdt_plus3'), ('hand_made.mpd', 'depth=30', 'tfdt_minus2'),
+                                  ('manifest_n.mpd', 'timeline=1&depth=30', 'mfhd_plus7'), ('manifest_a.mpd', 'depth=30', 'mfhd_minus1'),
+                                  ('manifest_e.mpd', 'depth=30', 'tfdt_plus3'), ('hand_made.mpd', 'timeline=1&depth=30', 'mfhd_plus7')):
+            for track in ('video', 'audio'):
+                for nth in (0, 1):
+                    from harness.faults import CATALOGUE as _CAT
+                    sessions.append({'tmpl': tmpl, 'mode': 'live', 'query': q, 'encrypted': False, 'duration': 62, 'now': NOWS[(nth + len(track)) % len(NOWS)],
+                                     'live': True, 'timeline': 'timeline=1' in q or tmpl in ('manifest_a.mpd', 'manifest_n.mpd') and False,
+                                     'patch': False, 'family': _CAT[fault_nm]['family'], 'nth': nth, 'fault': fault_nm, 'track': track,
+                                     'after_refresh': 1})
         # occurrences deep into the session (thorough): the model's nth is unbounded in the trace spec
         if tier_ == 'thorough':
             for fam in ('decode_time', 'sequence_number', 'trun_offset', 'init_box'):
